@@ -53,29 +53,15 @@ func verifChain(line string) (res string) {
 		}
 	}()
 	f := strings.Fields(line)
+	if len(f) >= 10 && f[0] == "cni.gen" {
+		return verifGen(f)
+	}
 	if len(f) < 8 || f[0] != "cni.chain" {
 		return "bad-op"
 	}
 	feat := &feature{EBPF: f[1] == "1", EDT: f[2] == "1", EnableNetworkPolicy: f[3] == "1"}
-	sw := f[4] == "1"
-	_switchDataPathV2 = func() bool { return sw }
-	_ = os.MkdirAll("/var/run/eni", 0o755)
-	switch f[5] {
-	case "t":
-		_ = os.WriteFile(nodeCapabilitiesFile, []byte("has_cilium_chainer = true\n"), 0o644)
-	case "f":
-		_ = os.WriteFile(nodeCapabilitiesFile, []byte("has_cilium_chainer = false\n"), 0o644)
-	default:
-		_ = os.Remove(nodeCapabilitiesFile)
-	}
-	if l, err := netlink.LinkByName("cilium_net"); err == nil {
-		if f[6] != "1" {
-			_ = netlink.LinkDel(l)
-		}
-	} else if f[6] == "1" {
-		if err := netlink.LinkAdd(&netlink.Veth{LinkAttrs: netlink.LinkAttrs{Name: "cilium_net"}, PeerName: "cilium_host"}); err != nil {
-			return "env-error:" + err.Error()
-		}
+	if e := verifEnv(f[4], f[5], f[6]); e != "" {
+		return e
 	}
 	v, rest, ok := verifParse(f[7:])
 	arr, isArr := v.([]any)
@@ -88,6 +74,36 @@ func verifChain(line string) (res string) {
 		configs = append(configs, b)
 	}
 	out, err := mergeConfigList(configs, feat)
+	return verifResult(out, err)
+}
+
+// verifEnv sets what mergeConfigList reads besides its arguments: the datapath switch, the recorded node capabilities, the
+// cilium_net link.
+func verifEnv(swV2, prev, link string) string {
+	sw := swV2 == "1"
+	_switchDataPathV2 = func() bool { return sw }
+	_ = os.MkdirAll("/var/run/eni", 0o755)
+	switch prev {
+	case "t":
+		_ = os.WriteFile(nodeCapabilitiesFile, []byte("has_cilium_chainer = true\n"), 0o644)
+	case "f":
+		_ = os.WriteFile(nodeCapabilitiesFile, []byte("has_cilium_chainer = false\n"), 0o644)
+	default:
+		_ = os.Remove(nodeCapabilitiesFile)
+	}
+	if l, err := netlink.LinkByName("cilium_net"); err == nil {
+		if link != "1" {
+			_ = netlink.LinkDel(l)
+		}
+	} else if link == "1" {
+		if err := netlink.LinkAdd(&netlink.Veth{LinkAttrs: netlink.LinkAttrs{Name: "cilium_net"}, PeerName: "cilium_host"}); err != nil {
+			return "env-error:" + err.Error()
+		}
+	}
+	return ""
+}
+
+func verifResult(out string, err error) string {
 	if err != nil {
 		switch {
 		case strings.Contains(err.Error(), "type not found"):
@@ -123,6 +139,71 @@ func verifChain(line string) (res string) {
 		}
 	}
 	return verifShow(plugins)
+}
+
+// verifGen: `terway-cli cni` as run on a node - processInput reads the mounted ConfigMap under /etc/eni, probes the kernel
+// (version check and bpftool, both answered by the op) and writes the list to --output, where an earlier run may have left
+// a file.  The outcome is what a reader of that file gets.
+//
+//	cni.gen <old none|short|long> <list 0|1> <ebpf> <edt> <policy> <switchV2> <prev t|f|-> <link 0|1> <plugins as token array>
+func verifGen(f []string) string {
+	if e := verifEnv(f[6], f[7], f[8]); e != "" {
+		return e
+	}
+	v, rest, ok := verifParse(f[9:])
+	arr, isArr := v.([]any)
+	if !ok || len(rest) != 0 || !isArr || (f[2] != "1" && len(arr) != 1) {
+		return "bad-op"
+	}
+	if err := os.MkdirAll(eniConfBasePath, 0o755); err != nil {
+		return "env-error:" + err.Error()
+	}
+	first := []byte("{}")
+	if len(arr) > 0 {
+		first, _ = json.Marshal(arr[0])
+	}
+	_ = os.WriteFile(eniConfBasePath+"/10-terway.conf", first, 0o644)
+	_ = os.Remove(eniConfBasePath + "/10-terway.conflist")
+	if f[2] == "1" {
+		b, _ := json.Marshal(map[string]any{"plugins": arr})
+		_ = os.WriteFile(eniConfBasePath+"/10-terway.conflist", b, 0o644)
+	}
+	_ = os.WriteFile(eniConfBasePath+"/eni_conf", []byte("{}"), 0o644)
+	_ = os.Remove(eniConfBasePath + "/disable_network_policy")
+	if f[5] != "1" {
+		_ = os.WriteFile(eniConfBasePath+"/disable_network_policy", []byte("true"), 0o644)
+	}
+	ebpf := f[3] == "1"
+	_checkKernelVersion = func(major, _, _ int) bool { return major == 5 || ebpf }
+	_ = os.MkdirAll("/run/verif-bin", 0o755)
+	probe := "{}"
+	if f[4] == "1" {
+		probe = `{"helpers":{"sched_cls":["bpf_skb_ecn_set_ce"]}}`
+	}
+	_ = os.WriteFile("/run/verif-bin/bpftool", []byte("#!/bin/sh\necho '"+probe+"'\n"), 0o755)
+	if !strings.HasPrefix(os.Getenv("PATH"), "/run/verif-bin:") {
+		_ = os.Setenv("PATH", "/run/verif-bin:"+os.Getenv("PATH"))
+	}
+	outPutPath = "/run/verif-10-terway.conflist"
+	switch f[1] {
+	case "none":
+		_ = os.Remove(outPutPath)
+	case "short":
+		_ = os.WriteFile(outPutPath, []byte("{}"), 0o644)
+	case "long":
+		old := `{"cniVersion":"0.4.0","name":"terway-chainer","plugins":[{"type":"terway"}` + strings.Repeat(`,{"type":"portmap","capabilities":{"portMappings":true}}`, 400) + "]}"
+		_ = os.WriteFile(outPutPath, []byte(old), 0o644)
+	default:
+		return "bad-op"
+	}
+	if err := processInput(); err != nil {
+		return verifResult("", err)
+	}
+	b, err := os.ReadFile(outPutPath)
+	if err != nil {
+		return "env-error:" + err.Error()
+	}
+	return verifResult(string(b), nil)
 }
 
 func verifStorePanics(container *gabs.Container) (panicked bool) {
